@@ -315,8 +315,10 @@ fn block_twin(seed: u64, idx: u64) -> Out {
         _ => 1,
     };
     // twin in f64 and in f32 arithmetic (the distance between the two loosens the comparison)
-    let run = |single: bool| -> Result<(Vec<Vec<f64>>, Vec<Vec<f64>>, Vec<f64>), String> {
-        let mut shared: Vec<Vec<f64>> = params.iter().map(|p| p.flat().iter().map(|v| *v as f64).collect()).collect();
+    let run = |single: bool, perturb: bool| -> Result<(Vec<Vec<f64>>, Vec<Vec<f64>>, Vec<f64>), String> {
+        // `perturb`: start one ulp-sized relative step away - how far the final weights move
+        // measures how strongly this run amplifies rounding-level differences
+        let mut shared: Vec<Vec<f64>> = params.iter().enumerate().map(|(li, p)| p.flat().iter().enumerate().map(|(i, v)| *v as f64 * if perturb { 1.0 + 1.2e-7 * (((li * 31 + i * 17) % 5) as f64 - 2.0) } else { 1.0 }).collect()).collect();
         let mut travel: Vec<Vec<f64>> = shared.iter().map(|l| vec![0.0; l.len()]).collect();
         let mut st64: std::collections::HashMap<(usize, usize, usize), St<f64>> = std::collections::HashMap::new();
         let mut st32: std::collections::HashMap<(usize, usize, usize), St<f32>> = std::collections::HashMap::new();
@@ -362,7 +364,7 @@ fn block_twin(seed: u64, idx: u64) -> Out {
                                     acc += w;
                                 }
                             }
-                            shared[li][i] = acc / copies as f64;
+                            shared[li][i] = if single { ((acc as f32) / copies as f32) as f64 } else { acc / copies as f64 };
                             travel[li][i] += (shared[li][i] - before).abs();
                         }
                         let vals: Vec<f32> = shared[li].iter().map(|v| *v as f32).collect();
@@ -374,19 +376,22 @@ fn block_twin(seed: u64, idx: u64) -> Out {
         })?;
         Ok((shared, travel, losses))
     };
-    let (w, travel, tloss, wb, tloss_b) = match (run(false), run(true)) {
-        (Ok((w, t, l)), Ok((wb, _, lb))) => (w, t, l, wb, lb),
-        (Err(m), _) | (_, Err(m)) => {
+    let (w, travel, tloss, wb, tloss_b, wp, tloss_p) = match (run(false, false), run(true, false), run(false, true)) {
+        (Ok((w, t, l)), Ok((wb, _, lb)), Ok((wp, _, lp))) => (w, t, l, wb, lb, wp, lp),
+        (Err(m), _, _) | (_, Err(m), _) | (_, _, Err(m)) => {
             out.inconclusive = Some(format!("block twin failed: {} [{}]", short(&m, 160), desc));
             return out;
         }
     };
+    let tp: Vec<f64> = wp.iter().flatten().cloned().collect();
     let lib = read_params(&net, &cfg, &params);
     let lf: Vec<f32> = lib.iter().flat_map(|p| p.flat()).collect();
     let tf: Vec<f64> = w.iter().flatten().cloned().collect();
     let tb: Vec<f64> = wb.iter().flatten().cloned().collect();
     let tv: Vec<f64> = travel.iter().flatten().cloned().collect();
-    if lf.len() != tf.len() || tf.iter().chain(tb.iter()).any(|v| !v.is_finite() || v.abs() > 1e15) || lf.iter().any(|v| !v.is_finite()) {
+    let w0max = params.iter().flat_map(|p| p.flat()).fold(1.0f32, |m, v| m.max(v.abs())) as f64;
+    let exploding = tf.iter().any(|v| v.abs() > 50.0 * w0max) || tloss.iter().any(|l| !(l.abs() < 1e6));
+    if lf.len() != tf.len() || exploding || tf.iter().chain(tb.iter()).chain(tp.iter()).any(|v| !v.is_finite() || v.abs() > 1e15) || lf.iter().any(|v| !v.is_finite()) {
         out.nontrivial = false;
         out.count("block_twin_runs_not_judged_(diverged)", 1);
         return out;
@@ -397,7 +402,8 @@ fn block_twin(seed: u64, idx: u64) -> Out {
     }
     for k in 0..lf.len() {
         let drift = (tf[k] - tb[k]).abs();
-        let tol = 1e-4 * (tf[k].abs() + tv[k]) + 1e-6 + 8.0 * drift;
+        let sens = (tf[k] - tp[k]).abs();
+        let tol = 1e-4 * (tf[k].abs() + tv[k]) + 1e-6 + 8.0 * drift + 16.0 * sens;
         if (lf[k] as f64 - tf[k]).abs() > tol {
             out.viol(
                 &format!("train:block-twin:weights:{}", opt.name()),
@@ -408,7 +414,7 @@ fn block_twin(seed: u64, idx: u64) -> Out {
         }
     }
     for e in 0..epochs.min(tl.len()) {
-        let tol = 1e-4 * tloss[e].abs() + 1e-6 + 8.0 * (tloss[e] - tloss_b[e]).abs();
+        let tol = 1e-4 * tloss[e].abs() + 1e-6 + 8.0 * (tloss[e] - tloss_b[e]).abs() + 16.0 * (tloss[e] - tloss_p[e]).abs();
         if (tl[e] as f64 - tloss[e]).abs() > tol {
             out.viol("train:block-twin:epoch-loss", format!("epoch {}: reported training loss {:e}, twin {:e} [{}]", e + 1, tl[e], tloss[e], desc), detail());
             break;
@@ -534,7 +540,7 @@ impl Monitor for C04 {
         vec![("runs", tier.pick(21_000, 420_000)), ("exact_fit", tier.pick(6_000, 120_000)), ("big_batches", tier.pick(600, 12_000)), ("split_runs", tier.pick(9_000, 180_000)), ("block_inline", tier.pick(9_000, 180_000)), ("block_twin", tier.pick(6_000, 120_000))]
     }
     fn rule(&self) -> &'static str {
-        "case i -> objective (i mod 7), optimizer kind (i/7 mod 5: SGD, SGDM, Adam, AdamW, RMSprop with random decay / dampening / momentum / centred), N in 1..23, B from {1,2,3,5,7,N-1,N,N+1,64} (so B=1, B not dividing N and B>N occur in every block of nine cases), E in 1..5, validation data in every second case, the objective gradient clamped in every fifth case, 6..12 epochs in every ninth, pools of 1..8 threads; random network of dense/conv/deconv/max-pool layers ending in a dense layer, pairwise different samples. (a) the hooked Forward/Update event log of the learn() call (and, in every third case, of a second learn() call on the same network, with another batch size and only a prefix of the samples) must match the trace grammar: per epoch the consecutive groups of B samples, each sample's forward pass exactly once and all before the group's single Update, Update step number = epoch index, then every validation sample once; nothing else. (b) a twin trainer recomputes the run: per-sample gradients from the library's own forward + hooked backward at the twin's weights, summed in sample order, one step of the documented update rule per group; final weights must agree within 1e-4 x (|w| + distance travelled) + 1e-6 and the per-epoch loss must equal the mean over groups of the mean per-sample loss. big_batches: the same two checks with N in {65,66,70,100,127..130,150,200,257} and B in {N, N-1, 64, 65, 70, 100, 128, 129, random 65..N} (groups larger than the library's parallel chunk of 64, mostly not a multiple of it), small networks. exact_fit: the same two checks on dense networks whose first layer is a ReLU layer with positive weights and negative bias followed by bias-free layers, with runs of samples that are fitted exactly (negative inputs, zero targets: loss 0, gradient 0) between ordinary samples, objectives AE / MAE / MSE: a group whose samples are all fitted exactly still receives its optimizer step (momentum, moment estimates and weight decay keep acting). split_runs: architectures the twin does not model (feedback blocks with and without bias, a skip or a loop connection), plain SGD with and without decay: one learn() call over G groups and E epochs must leave bit-identical weights to E*G learn() calls of one group each on an identically built network, and report the mean of those calls' losses per epoch (nothing is carried from one group to the next). block_twin: chain networks with one feedback block (mean coupling, no internal skips, 1..4 loops, all five optimizers): the twin lets every unrolled copy take one step of the documented rule on the sum of its own per-sample gradients (own state per copy) and couples the copies by the arithmetic mean; final weights and epoch losses as in `runs`. block_inline: a chain network and the same network with one shape-preserving layer wrapped into a feedback block of ONE loop (no internal skips) are trained with the same data and the same optimizer (all five kinds, stateful ones included): final weights and epoch losses must agree (1e-3 relative to the weight change; bit-identical pairs are counted). Distinct = distinct (network, optimizer, N, B, E) descriptors."
+        "case i -> objective (i mod 7), optimizer kind (i/7 mod 5: SGD, SGDM, Adam, AdamW, RMSprop with random decay / dampening / momentum / centred), N in 1..23, B from {1,2,3,5,7,N-1,N,N+1,64} (so B=1, B not dividing N and B>N occur in every block of nine cases), E in 1..5, validation data in every second case, the objective gradient clamped in every fifth case, 6..12 epochs in every ninth, pools of 1..8 threads; random network of dense/conv/deconv/max-pool layers ending in a dense layer, pairwise different samples. (a) the hooked Forward/Update event log of the learn() call (and, in every third case, of a second learn() call on the same network, with another batch size and only a prefix of the samples) must match the trace grammar: per epoch the consecutive groups of B samples, each sample's forward pass exactly once and all before the group's single Update, Update step number = epoch index, then every validation sample once; nothing else. (b) a twin trainer recomputes the run: per-sample gradients from the library's own forward + hooked backward at the twin's weights, summed in sample order, one step of the documented update rule per group; final weights must agree within 1e-4 x (|w| + distance travelled) + 1e-6 and the per-epoch loss must equal the mean over groups of the mean per-sample loss. big_batches: the same two checks with N in {65,66,70,100,127..130,150,200,257} and B in {N, N-1, 64, 65, 70, 100, 128, 129, random 65..N} (groups larger than the library's parallel chunk of 64, mostly not a multiple of it), small networks. exact_fit: the same two checks on dense networks whose first layer is a ReLU layer with positive weights and negative bias followed by bias-free layers, with runs of samples that are fitted exactly (negative inputs, zero targets: loss 0, gradient 0) between ordinary samples, objectives AE / MAE / MSE: a group whose samples are all fitted exactly still receives its optimizer step (momentum, moment estimates and weight decay keep acting). split_runs: architectures the twin does not model (feedback blocks with and without bias, a skip or a loop connection), plain SGD with and without decay: one learn() call over G groups and E epochs must leave bit-identical weights to E*G learn() calls of one group each on an identically built network, and report the mean of those calls' losses per epoch (nothing is carried from one group to the next). block_twin: chain networks with one feedback block (mean coupling, no internal skips, 1..4 loops, all five optimizers): the twin lets every unrolled copy take one step of the documented rule on the sum of its own per-sample gradients (own state per copy) and couples the copies by the arithmetic mean; final weights and epoch losses as in `runs`, the tolerance additionally loosened by the sensitivity of the run (distance to a twin started one ulp away); runs whose weights grow beyond 50x the initial scale or whose loss exceeds 1e6 are counted, not judged. block_inline: a chain network and the same network with one shape-preserving layer wrapped into a feedback block of ONE loop (no internal skips) are trained with the same data and the same optimizer (all five kinds, stateful ones included): final weights and epoch losses must agree (1e-3 relative to the weight change; bit-identical pairs are counted). Distinct = distinct (network, optimizer, N, B, E) descriptors."
     }
     fn assumptions(&self) -> Vec<&'static str> {
         vec![
@@ -714,6 +720,7 @@ impl Monitor for C04 {
                     let objf = objective::Function::create(lib_obj(obj), clamp);
                     let mut cur = params.clone();
                     let mut diverged = false;
+                    let mut pst: Vec<Vec<St<f32>>> = params.iter().map(|p| vec![St::default(); p.count()]).collect();
                     let probe = guard(|| {
                         'outer: for epoch in 1..=epochs {
                             for g in (0..n).collect::<Vec<_>>().chunks(batch) {
@@ -740,9 +747,8 @@ impl Monitor for C04 {
                                 }
                                 for li in 0..cur.len() {
                                     let mut vals = cur[li].flat();
-                                    let mut st: Vec<St<f32>> = vec![St::default(); vals.len()];
                                     for k in 0..vals.len() {
-                                        model_step(&opt, epoch as i32, &mut vals[k], sum[li][k] as f64, &mut st[k]);
+                                        model_step(&opt, epoch as i32, &mut vals[k], sum[li][k] as f64, &mut pst[li][k]);
                                         if !vals[k].is_finite() || vals[k].abs() > 1e15 {
                                             diverged = true;
                                         }
@@ -751,6 +757,17 @@ impl Monitor for C04 {
                                 }
                                 if diverged {
                                     break 'outer;
+                                }
+                            }
+                            // the validation pass of the epoch: non-finite predictions (which make the
+                            // arg-max / comparisons inside validate() panic) are a divergence as well
+                            if with_val {
+                                let tnet = build_net(&cur).expect("twin build");
+                                for vx in val.x_tensors.iter() {
+                                    if flat(&tnet.predict(vx)).iter().any(|v| !v.is_finite()) {
+                                        diverged = true;
+                                        break 'outer;
+                                    }
                                 }
                             }
                         }
